@@ -135,6 +135,19 @@ def run(ctx):
                 if ms is not None:
                     field_shifts = ms[1]
                     fs_ok = any(x is field_shifts for x in subterms(A))
+                    # the Gaussian-ratio term  sum(x * f - f * f / 2)  must be written with the very shift f that is
+                    # subtracted from the fields: collect what the raw fields x are multiplied by inside the exponent
+                    raw = strip_wrappers(ms[0])
+                    partners = []
+                    for x in subterms(A):
+                        if x.op == "binop" and x.args[0] == "*":
+                            a_, b_ = strip_wrappers(x.args[1]), strip_wrappers(x.args[2])
+                            if a_ is raw:
+                                partners.append(b_)
+                            elif b_ is raw:
+                                partners.append(a_)
+                    if partners and not all(q is strip_wrappers(field_shifts) for q in partners):
+                        fs_ok = False
                 ctx.rep.ob("GUARD-1", f"{P}.propagate: the field shift applied to the walkers is the one "
                            f"compensated in I", fs_ok, "fields - field_shifts, field_shifts in the exponent"
                            if fs_ok else "shifted fields and the force-bias term use different shifts",
@@ -220,11 +233,39 @@ def run(ctx):
         badr = [(e.line, k) for e, k, okr, why in r.reads if not okr]
         ctx.ob("TS-3", f"sampler.propagate_phaseless x {P}: cached overlap coherent at every read", not badr,
                f"stale reads at {badr}" if badr else f"{len(r.reads)} reads COH/LAG", base)
+    wrappers_delegate(ctx)
     try:
         from . import c14
         c14.builder_agreement(ctx)
     except ImportError:
         ctx.rep.note("builder sibling agreement (SIB-2) not available yet")
+
+
+def wrappers_delegate(ctx):
+    """PATH-1.  hamiltonian.build_propagation_intermediates / build_measurement_intermediates are what the samplers
+    call after every edit of the Hamiltonian (each AD block changes h1 or chol): on *every* path they must hand back
+    what the propagator's / trial's builder returns for the current ham_data.  A path that returns without calling the
+    builder (an "already prepared" shortcut) leaves exp_h1, the mean-field shifts and h0_prop of the previous
+    Hamiltonian in place."""
+    from ..symex import Evaluator as _Ev, subterms as _sub
+    p = ctx.p
+    for wname, callee in (("build_propagation_intermediates", "_build_propagation_intermediates"),
+                          ("build_measurement_intermediates", "_build_measurement_intermediates")):
+        fi = p.lookup_method("hamiltonian.hamiltonian", wname)
+        if fi is None:
+            ctx.rep.note(f"hamiltonian.{wname} not found; delegation rule not applicable")
+            continue
+        ev = _Ev(p)
+        ev.auto_inline_helpers = True
+        fr = ev.eval_function(fi)
+        leaves = [(pth, t_, ln) for pth, kind, t_, ln in ev.leaves(fr) if kind == "return"]
+        bad = []
+        for pth, t_, ln in leaves:
+            if not any(x.op == "call" and x.args[0].op == "attr" and x.args[0].args[1] == callee for x in _sub(t_)):
+                bad.append(ln)
+        ctx.ob("PATH-1", f"hamiltonian.{wname}: every path returns what {callee} builds for the current ham_data",
+               bool(leaves) and not bad, f"{len(leaves)} return path(s)" + (f"; path(s) at line {bad} return without calling "
+                                                                          f"the builder" if bad else ""), fi)
 
 
 def input_ham_keys(ctx) -> dict:
